@@ -250,6 +250,15 @@ Theorem C15_clientHello_accepted_iff : forall data, accepts (clientHello_unmarsh
 Proof. exact clientHello_accepts_iff. Qed.
 Print Assumptions C15_clientHello_accepted_iff.
 
+(* serverHelloMsg.unmarshal likewise: accepted exactly for the shape HSMsgParsers.sh_shape (header, version, random,
+   session id <= 32, suite, compression method, then nothing or a length-exact extension block satisfying
+   sh_ext_block_ok: next_protocol_negotiation a list of non-empty strings, status_request / session_ticket empty,
+   renegotiation_info a length-prefixed string, ALPN exactly one non-empty protocol, SCT a non-empty list of non-empty
+   entries, unknown types any body). *)
+Theorem C15_serverHello_accepted_iff : forall data, accepts (serverHello_unmarshal data) <-> sh_shape data.
+Proof. exact serverHello_accepts_iff. Qed.
+Print Assumptions C15_serverHello_accepted_iff.
+
 (* ---- 5. the tables the models use are the ones in the source now -------------------------------------------- *)
 (* Gen/HSTables.v is regenerated from gmtls/cipher_suites.go, gm_support.go, common.go on every run: both suite tables
    row by row (id, key agreement, flag bits), the default suite lists, version numbers, minVersion / maxVersion,
@@ -438,6 +447,18 @@ Proof.
   - apply (EB_cons 0 5 0 0 [] []); [reflexivity|exact I|constructor].
   - intros H. apply (ch_ext_loop_accepts 5 [0; 13; 0; 0] (mkCHF 0 [] [] [] [] false [] false [] [] false [] [] false [] [] false)) in H; [|cbn; lia].
     destruct H as [r H]. vm_compute in H. discriminate.
+Qed.
+
+Definition ex_sh (ext : list N) : list N := [2; 0; 0; 0] ++ [1; 1] ++ repeat 7 32 ++ [0] ++ [224; 19; 0] ++ ext.
+Example C15_serverHello_shape :
+  sh_shape (ex_sh []) /\ sh_shape (ex_sh [0; 5; 255; 1; 0; 1; 0]) /\ ~ sh_shape (ex_sh [0; 4; 0; 16; 0; 0]) /\
+  ~ sh_shape (ex_sh [0; 5; 0; 35; 0; 1; 9]).
+Proof.
+  split; [|split; [|split]].
+  - apply serverHello_accepts_iff. eexists. vm_compute. reflexivity.
+  - apply serverHello_accepts_iff. eexists. vm_compute. reflexivity.
+  - intros H. apply serverHello_accepts_iff in H. destruct H as [r H]. vm_compute in H. discriminate.
+  - intros H. apply serverHello_accepts_iff in H. destruct H as [r H]. vm_compute in H. discriminate.
 Qed.
 
 Example C15_clientHello_shape :
